@@ -229,7 +229,9 @@ def pair_aligned(doc, pos):
     off = r.text_offset
     if not off:
         return True
-    t = r.parent.child(r.index()).text
+    t = getattr(r.parent.child(r.index()), "text", None)
+    if t is None:
+        return True     # an offset into a non-text child: the resolve oracles report that, not this helper
     b = t.encode("utf-16-le")
     u = int.from_bytes(b[2 * off:2 * off + 2], "little")
     return not (0xDC00 <= u < 0xE000)
